@@ -159,7 +159,7 @@ def run(chk) -> None:
         inner = s["inner"]
         in_loop = any(inner[i] in loops and all(x in loops for x in inner[i + 1:]) for i in range(len(inner)))
         it = s["item"]
-        if it == "unwrap":
+        if it in ("unwrap", "unwrapChain2", "unwrapChainLines", "expectThenUnwrap"):
             return not ex
         if it == "expect":
             return not o["allowExpect"] and not ex
@@ -172,7 +172,8 @@ def run(chk) -> None:
         flag = {"blockFs": "detectFs", "blockFsUse": "detectFs", "blockSleep": "detectSleep", "blockNet": "detectNet"}[it]
         return s["fn"] == "async" and not (set(inner) & wraps) and o[flag] and not ex
 
-    own = {"unwrap": "unwrap-abuse", "expect": "unwrap-abuse", "clonePlain": "clone-abuse", "cloneChain": "clone-abuse",
+    own = {"unwrap": "unwrap-abuse", "expect": "unwrap-abuse", "unwrapChain2": "unwrap-abuse",
+           "unwrapChainLines": "unwrap-abuse", "expectThenUnwrap": "unwrap-abuse", "clonePlain": "clone-abuse", "cloneChain": "clone-abuse",
            "cloneLetUnused": "clone-abuse"}
     for (j, sites_l, run_), (la, lb, at) in zip(meta, verdicts):
         o = spec_opts(run_["linter"], run_["opts"])
@@ -197,6 +198,10 @@ def run(chk) -> None:
             if s["item"] == "cloneChain" and e:
                 inl = any(s["inner"][i] in loops and all(x in loops for x in s["inner"][i + 1:]) for i in range(len(s["inner"])))
                 e = (1 if ((inl and o["detectLoop"]) or o["detectChain"]) else 0) + (1 if (inl and o["detectLoop"]) else 0)
+            if s["item"] in ("unwrapChain2", "unwrapChainLines") and e:
+                e = 2
+            if s["item"] == "expectThenUnwrap" and e:
+                e = 1 + (0 if o["allowExpect"] else 1)
             n = rep.get(s["line"], 0)
             if n == e:
                 continue
